@@ -148,6 +148,12 @@ def _run_huge(case, ctx):
               "fs_frac" if fs != int(fs) else "fs_int", "trail_partial" if trail else "trail_0")
     ctx.nontrivial = True
     Cls = sg.OnlineReader if case["reader"] == "online" else sg.Reader
+    import resource
+    lim = resource.getrlimit(resource.RLIMIT_AS)[0]
+    if lim != resource.RLIM_INFINITY and lim < L + 2 ** 32:
+        # the file cannot be mapped under this address-space limit (sensitivity runs set one): nothing to learn here
+        ctx.label("huge_skipped_address_space_limit")
+        return
     with rec.scratch_dir(ctx) as d:
         binf = rec.write_recording(d, spec, ends[:1])
         try:
